@@ -330,7 +330,7 @@ Section Search.
   Proof.
     unfold tuner_fit. destruct (tune_ sp st cands) as [s|]; [|discriminate].
     intro H. injection H as <-. exists s. split; [reflexivity|]. split; [reflexivity|].
-    intros nn script. rewrite tuner_run_refit by reflexivity. reflexivity.
+    intros script. rewrite tuner_run_refit by reflexivity. reflexivity.
   Qed.
 
   (* without refit every delegating method raises NotFittedError, and the winner received nothing *)
